@@ -438,9 +438,137 @@ func sharedDefaultsFault(r *Rng) Case {
 		Tags: []string{"fault:shared-defaults"}, Nontrivial: true}
 }
 
+// apiErrCases: faults that are reported by other entry points than Unpack into a generated type,
+// or at places where the error is put together by hand: the message must be a typed error that
+// names the setting and the source
+func apiErrCases(g *Gen) {
+	r := g.R
+	source := "conf.d/src.yml"
+	add := func(entry, path string, err error, panicked bool) {
+		typed, msg := false, ""
+		if panicked {
+			msg = "PANIC"
+		} else if err == nil {
+			msg = "no error"
+		} else {
+			msg = err.Error()
+			if e, ok := err.(ucfg.Error); ok && e.Reason() != nil && e.Class() != nil {
+				typed = true
+			}
+		}
+		if i := strings.Index(msg, "\nTrace:"); i >= 0 {
+			msg = msg[:i]
+		}
+		g.Add(Case{Coq: fmt.Sprintf("CApiErr %s %s %s %s %s", coqStr(entry), coqStr(path), coqStr(source), coqBool(typed), coqStr(msg)),
+			Desc: map[string]interface{}{"kind": "api-error", "entry": entry, "fault_path": path, "message": msg, "typed": typed},
+			Tags: []string{"api-error", "entry:" + strings.SplitN(entry, " ", 2)[0]}, Nontrivial: true})
+	}
+	for i := 0; i < 10; i++ {
+		// where the faulty setting lives: below a random prefix of names and list indices
+		var segs []string
+		for k := r.Intn(3); k > 0; k-- {
+			segs = append(segs, []string{"out", "es", "0", "1", "n"}[r.Intn(5)])
+		}
+		if len(segs) > 0 && (segs[0] == "0" || segs[0] == "1") {
+			segs[0] = "lst"
+		}
+		wrap := func(leafKey string, leaf interface{}) map[string]interface{} {
+			root := map[string]interface{}{}
+			setDotted(root, strings.Join(append(append([]string{}, segs...), leafKey), "."), leaf)
+			return root
+		}
+		at := func(leafKey string) string { return strings.Join(append(append([]string{}, segs...), leafKey), ".") }
+		opts := []ucfg.Option{ucfg.PathSep("."), ucfg.VarExp}
+		lopts := append(append([]ucfg.Option{}, opts...), ucfg.MetaData(ucfg.Meta{Source: source}))
+		// an unresolvable reference, counted / unpacked into interface{} / into a slice or array
+		{
+			c, err := ucfg.NewFrom(wrap("u", "${nope}"), lopts...)
+			if err != nil {
+				continue
+			}
+			parent := c
+			if len(segs) > 0 {
+				parent, err = c.Child(strings.Join(segs, "."), -1, opts...)
+				if err != nil || parent == nil {
+					continue
+				}
+			}
+			var cerr error
+			p, _ := guard(func() { _, cerr = parent.CountField("u", opts...) })
+			add("CountField of an unresolvable reference", at("u"), cerr, p)
+			var m map[string]interface{}
+			p, _ = guard(func() { cerr = c.Unpack(&m, opts...) })
+			add("Unpack into map[string]interface{}", at("u"), cerr, p)
+			var st struct {
+				Out interface{} `config:"out"`
+				Lst interface{} `config:"lst"`
+				N   interface{} `config:"n"`
+				Es  interface{} `config:"es"`
+				U   interface{} `config:"u"`
+			}
+			p, _ = guard(func() { cerr = c.Unpack(&st, opts...) })
+			add("Unpack into interface{} fields", at("u"), cerr, p)
+			if len(segs) == 0 {
+				var sl struct {
+					U []int `config:"u"`
+				}
+				p, _ = guard(func() { cerr = c.Unpack(&sl, opts...) })
+				add("Unpack of a reference into []int", at("u"), cerr, p)
+				var ar struct {
+					U [2]int `config:"u"`
+				}
+				p, _ = guard(func() { cerr = c.Unpack(&ar, opts...) })
+				add("Unpack of a reference into [2]int", at("u"), cerr, p)
+			}
+		}
+		// a getter whose path runs into a value that holds no settings
+		{
+			c, err := ucfg.NewFrom(wrap("p", []interface{}{int64(1), "str", true}[r.Intn(3)]), lopts...)
+			if err != nil {
+				continue
+			}
+			name := at("p") + "." + []string{"x", "x.y", "3"}[r.Intn(3)]
+			var gerr error
+			var p bool
+			switch r.Intn(4) {
+			case 0:
+				p, _ = guard(func() { _, gerr = c.String(name, -1, opts...) })
+			case 1:
+				p, _ = guard(func() { _, gerr = c.Int(name, -1, opts...) })
+			case 2:
+				p, _ = guard(func() { _, gerr = c.Child(name, -1, opts...) })
+			default:
+				p, _ = guard(func() { _, gerr = c.Bool(name, -1, opts...) })
+			}
+			want := name
+			if strings.HasSuffix(name, "x.y") {
+				want = at("p") // the walk stops at the value that is no object
+			}
+			add("getter through a value that holds no settings", want, gerr, p)
+		}
+		// namespaces created by a setter carry the source of the call
+		{
+			c := ucfg.New()
+			name := at("z")
+			if err := c.SetString(name, -1, "v", ucfg.PathSep("."), ucfg.MetaData(ucfg.Meta{Source: source})); err != nil || len(segs) == 0 {
+				continue
+			}
+			k := 1 + r.Intn(len(segs))
+			if _, err := strconv.Atoi(segs[k-1]); err == nil && k < len(segs) {
+				k++
+			}
+			ns := strings.Join(segs[:k], ".")
+			var gerr error
+			p, _ := guard(func() { _, gerr = c.Int(ns, -1, ucfg.PathSep(".")) })
+			add("Int of a namespace created by SetString", ns, gerr, p)
+		}
+	}
+}
+
 func genReify(g *Gen, mode string) {
 	r := g.R
 	if mode == "C14" {
+		apiErrCases(g)
 		for i := 0; i < 12; i++ {
 			if c := sharedDefaultsFault(r); c.Coq != "" {
 				g.Add(c)
